@@ -28,6 +28,7 @@ CLAUSE_OF = {
     "P14": ("C11", "a PUBLISH whose identifier was still in use reached a handler"),
     "P15": ("C18", "a SUBSCRIBE / UNSUBSCRIBE carrying a malformed topic filter reached the protocol service"),
     "P16": ("C04", "a response was written after the response to a later request"),
+    "P17": ("C03", "a PUBREL was accepted for an identifier whose QoS 2 PUBLISH has not been handled successfully"),
     "P9": ("C17", "a handler saw a topic that is not the latest binding of the alias used"),
 }
 # recorded findings that the scan can hit (see known_findings.json)
@@ -299,6 +300,44 @@ def p15(v, case, obs):
     return []
 
 
+def p17(v, case, obs):
+    """C03: PUBCOMP only in answer to the PUBREL of a QoS 2 PUBLISH that was handled -- a PublishRelease reaches the
+    protocol service only for an id whose QoS 2 handler has completed successfully (positive PUBREC produced): the
+    PublishRelease invocations can never outnumber the successfully completed QoS 2 handlers"""
+    if obs == "9999":
+        return []
+    fields = [[int(t) for t in f.split(",")] for f in case.split(";")]
+    ops = fields[1:]
+    of = obs.split(";")
+    if len(of) != len(ops):
+        return []
+    done_at = {}
+    for n, op in enumerate(ops):
+        if op[0] == 2 and len(op) >= 3 and op[1] not in done_at:
+            done_at[op[1]] = (n, op[2])
+    rels = [op[2] for op in ops if op[0] == 1 and op[1] == 4 and len(op) >= 3]
+    if len(rels) != len(set(rels)):
+        return []         # a repeated PUBREL may be handed over again while the first is still being handled
+    q2 = []               # QoS 2 handlers invoked so far
+    rel = 0
+    for n, f in enumerate(of):
+        try:
+            wire, hs, ps, stop1, nstop, is_open = I.parse_obs(f)
+        except ValueError:
+            return []
+        for (h, qos, pid, topic, plen, retain) in hs:
+            if h < 1000 and qos == 2:
+                q2.append(h)
+        for (c, kind) in ps:
+            if kind == 1:
+                rel += 1
+                ok = sum(1 for h in q2 if h in done_at and done_at[h][0] <= n and done_at[h][1] == 0)
+                if rel > ok:
+                    return ["P17 PublishRelease number %d reached the protocol service, only %d QoS 2 handlers have "
+                            "completed successfully (op %d)" % (rel, ok, n + 1)]
+    return []
+
+
 RESP_OF = {1: None, 4: 0x70, 6: 0x90, 7: 0xB0, 8: 0xD0}
 
 
@@ -385,6 +424,8 @@ class InbPart(Part):
             bad = bad + p14(self.ver, case, obs)
         if "C18" in self.want and self.engine.startswith("inb"):
             bad = bad + p15(self.ver, case, obs)
+        if "C03" in self.want or "C11" in self.want:
+            bad = bad + p17(self.ver, case, obs)
         if "C04" in self.want and self.engine.startswith("inb"):
             bad = bad + p16(self.ver, case, obs)
         elif "C12" in self.want and self.engine == "inb5":
@@ -395,7 +436,8 @@ class InbPart(Part):
             if code in ("P6", "P7"):
                 continue               # imprecise for peers that release before the PUBREC (see DESIGN 10.3)
             prop = CLAUSE_OF.get(code, ("?", ""))[0]
-            if prop in self.want or (code in ("P10", "P11") and "C03" in self.want):
+            if prop in self.want or (code in ("P10", "P11") and "C03" in self.want) \
+                    or (code == "P17" and "C11" in self.want):
                 for k, name in KNOWN.items():
                     if b.startswith(k):
                         return "0,known," + name
